@@ -83,6 +83,9 @@ inductive Entry where
   | startStdio
   /-- `harper-ls` (TCP): `TcpListener::bind("127.0.0.1:4000")`, one `accept` -/
   | startTcp
+  /-- `harper-ls` (TCP) while `127.0.0.1:4000` is taken by another process: `bind` fails,
+      `.unwrap()` panics, the process ends — no listener on any other address, no `accept` -/
+  | startTcpTaken
   /-- `didOpen` / `didChange`: `update_document` loads both dictionaries; `twice` = the identifier
       dictionary changed, so `use_ident_dict` loads them again -/
   | update (doc : List Char) (twice : Bool)
@@ -119,6 +122,7 @@ def trace (P : Paths) : Entry → List Eff
   | .wasm => []
   | .startStdio => []
   | .startTcp => [.listen [127, 0, 0, 1] 4000, .accept]
+  | .startTcpTaken => []
   | .update doc twice => updateEff P doc twice
   | .save doc e twice => rereadEff P doc e twice
   | .close => []
